@@ -191,6 +191,33 @@ def check_extra_state(P, R, rid_e, rid_c):
              and is_const(compare_parts(n.ast)[2], 0) and any(s.kind == 'stmt' and isinstance(s.ast, ast.Return) for s in T.succ_by_label(n, 'true'))
              and T.loops_of(n.ast)]
     fl = [n for n in walk_shallow(mt_init.node) if isinstance(n, ast.For)]
+    if not fl:
+        # no table of heads: the candidate starts are searched for in the window instead.  Every occurrence of the first delimiter symbol in the
+        # window is a candidate; a single forward find() tries only the first one.
+        finds = [c for c in walk_shallow(mt_match.node) if isinstance(c, ast.Call) and call_attr(c) in ('find', 'index') and c.args]
+        again = [c for c in finds if T.loops_of(c)]
+        if finds and not again:
+            c = finds[0]
+            R.ob(rid_e, mt_match, c, False, text=f'every candidate start found by `{short(c)}` is tried', detail=
+                 f'`{short(c)}` yields the first occurrence of the delimiter\'s leading symbol in the window and only that candidate is compared: when part data '
+                 f'has a CR shortly before the delimiter, the delimiter head that starts at the later CR is never tried and a delimiter cut by the read '
+                 f'boundary is missed - for some cuts and not for others',
+                 why='a read boundary inside the delimiter must not change the result', key_extra='matchtail-single-candidate')
+        for c in again:
+            # the search resumes right behind the rejected candidate
+            a1 = c.args[1] if len(c.args) > 1 else None
+            tgt = T.assigned_name_of_call(c)
+            step = None
+            if isinstance(a1, ast.BinOp) and isinstance(a1.op, ast.Add) and isinstance(a1.left, ast.Name) and isinstance(a1.right, ast.Constant):
+                step = (a1.left.id, a1.right.value)
+            if step is None or tgt is None:
+                R.undecided(rid_e, mt_match, c, 'match_tail', f'the resume position `{short(a1) if a1 is not None else "?"}` of the repeated search has no recogniser')
+                continue
+            ok = step[0] == tgt and step[1] == 1
+            R.ob(rid_e, mt_match, c, ok, text=f'the search for the next candidate resumes at `{short(a1)}`', detail='' if ok else
+                 f'after a rejected candidate the search resumes at `{short(a1)}`: the symbol directly behind a rejected CR is never examined, so in `..CR CR LF --boundary` '
+                 f'the real delimiter start is skipped and the part swallows the delimiter and what follows',
+                 why='part content ending in CR (or CR CR LF look-alikes) must be delimited like any other', key_extra='matchtail-resume')
     R.require(fl, 'MatchTail.__init__: index-building loop not found')
     it = fl[0].iter
     asc = (isinstance(it, ast.Call) and dotted(it.func) == 'enumerate') or \
@@ -564,3 +591,26 @@ def check_end_headers(P, R, consts):
                      'the header end completed across a chunk boundary is reported while the carried continuation stays set: the next part\'s header scan starts '
                      'with a stale continuation and that part (and what follows) is lost or refused',
                      why='a read boundary inside CRLFCRLF must not change the result', key_extra='clear-on-found')
+
+    # a chunk that holds only a proper head of the pending continuation consumes that head: the continuation is shortened before waiting on
+    pend_names = {compare_parts(pt.ast)[0].id for pt in pend}
+    for n in gh.nodes:
+        if n.kind != 'test' or n.ast is None:
+            continue
+        calls = [c for c in ast.walk(n.ast) if isinstance(c, ast.Call) and call_attr(c) == 'startswith' and isinstance(c.func.value, ast.Name)
+                 and c.func.value.id in pend_names and c.args]
+        if not calls:
+            continue
+        c = calls[0]
+        neg = isinstance(n.ast, ast.UnaryOp) and isinstance(n.ast.op, ast.Not)
+        side = T.succ_by_label(n, 'false' if neg else 'true')
+        adv = [m_ for m_ in gh.nodes if m_.kind == 'stmt' and isinstance(m_.ast, ast.Assign) and any(dotted(t) == 'self.headers_end_expected' for t in m_.ast.targets)
+               and isinstance(m_.ast.value, ast.Subscript) and isinstance(m_.ast.value.slice, ast.Slice) and m_.ast.value.slice.lower is not None
+               and isinstance(m_.ast.value.value, ast.Name) and m_.ast.value.value.id == c.func.value.id]
+        starts = [s_ for s_ in side if s_ not in adv]
+        leak = bool(starts) and gh.exit in gh.reachable_from(starts, avoid_nodes=adv)
+        R.ob('C06.g', f, n.ast, not leak, text=f'`{short(c)}`: the head consumed from the pending continuation is cut off before waiting for the next chunk',
+             detail='' if not leak else
+             f'a chunk that is a proper head of the pending continuation `{c.func.value.id}` is consumed without shortening the continuation: when CRLFCRLF is spread over '
+             f'three chunks (one lying completely inside it) the next chunk is compared with bytes already seen and the header end goes unnoticed',
+             why='a read boundary inside CRLFCRLF must not change the result (any number of cuts)', key_extra='advance-pending')
